@@ -42,7 +42,7 @@ func (b c03binding) EffQueue() string {
 
 func TestC03(t *testing.T) {
 	e := vlib.GetEnv()
-	n := e.Pick(64, 1000)
+	n := e.Pick(64, 6000)
 	vlib.RunCases(t, "C03", "queues", n, func(c *vlib.Case) vlib.Result {
 		var res vlib.Result
 		c03run(c, &res)
